@@ -225,7 +225,7 @@ fn text_checks(rep: &mut Report, orc: &mut Oracle, rng: &mut Rng, m: &StMoc, cas
       }
     }
   }
-  for fold in [None, Some(40usize)] {
+  for fold in [None, Some(0usize), Some(40)] {
     rep.evaluations += 1;
     rep.count("json");
     let mm = to_moc2(m);
@@ -240,6 +240,16 @@ fn text_checks(rep: &mut Report, orc: &mut Oracle, rng: &mut Rng, m: &StMoc, cas
       Ok((from_moc2(back2), s, String::from_utf8_lossy(&buf2).to_string()))
     });
     let shown = format!("{} # format=json(fold={:?})", case, fold);
+    if let Ok(Ok((_, s1, _))) = &r {
+      rep.evaluations += 1;
+      rep.count("json2-writer-exact");
+      let req = format!("JSON2W {} {} {} {}", m.dt, m.ds, fold.map(|x| x.to_string()).unwrap_or("-".to_string()), m.wire());
+      let model = orc.ask(&req);
+      let model_hex = model.split_whitespace().nth(1).unwrap_or("").to_string();
+      if !model.starts_with("OK") || asciix::hex(s1.as_bytes()) != model_hex {
+        rep.corr_break("cellmoc2d_to_json_aladin writes other characters than the character-level model", &format!("{} # {}", req, shown), &format!("{:?}", s1), &model.chars().take(300).collect::<String>(), "src/deser/json.rs cellmoc2d_to_json_aladin == Model/JsonCodec.v st_to_json");
+      }
+    }
     match r {
       Ok(Ok((back, s1, s2))) => {
         if back != *m {
